@@ -61,6 +61,8 @@ def op_term(o):
         return "OLocal"
     if o["k"] == "retry":
         return "ORetry %d %s" % (o.get("g", 0), coq_bool(bool(o.get("slow"))))
+    if o["k"] == "check":
+        return "OCheck %s" % coq_bool(bool(o.get("expired")))
     if o["k"] == "retire":
         return "ORetire %d" % o["target"]
     if o["k"] == "p2":
@@ -71,6 +73,8 @@ def op_term(o):
 def out_term(op, r):
     if r["class"] == "skipped":
         return "OSkipped"
+    if op["k"] == "check":
+        return "OChk %s" % coq_list(["%d%%nat" % c for c in r.get("closed") or []])
     if op["k"] == "p2":
         return "OP2 %s" % coq_bool(bool(r.get("good")))
     return "OOk" if r["class"] == "ok" else ("OErrBad" if r.get("bad") else "OErr")
